@@ -17,6 +17,7 @@ type RS = Vec<(PathBuf, PathBuf, CovResult)>;
 mod cobade;
 mod cobbytes;
 mod docs;
+mod jsonbytes;
 mod mainglue;
 
 fn want_map(rs: &RS, lines: bool, branches: bool, fns: bool) -> BTreeMap<String, CovResult> {
@@ -482,6 +483,7 @@ pub fn run(rep: &mut Report) {
     }
     cobade::run(rep);
     docs::run(rep);
+    jsonbytes::run(rep);
     cobbytes::run(rep);
     mainglue::run(rep);
 }
@@ -554,6 +556,7 @@ pub fn replay(rep: &mut Report, case: &serde_json::Value) {
         return cobade::replay(rep, case);
     }
     if case["op"].as_str().map(|o| o.starts_with("c03.docs.")).unwrap_or(false) { return docs::replay(rep, case); }
+    if case["op"].as_str().map(|o| o.starts_with("c03.json.")).unwrap_or(false) { return jsonbytes::replay(rep, case); }
     if case["op"].as_str().map(|o| o.starts_with("main.")).unwrap_or(false) { return mainglue::replay(rep, case); }
     rep.notes.push(format!("replay: re-run ./check C03 with the same seed (format {})", case["format"]));
 }
